@@ -18,6 +18,29 @@ pub struct Unit {
     pub level: Level,
     pub len: usize,
     pub vars: Vec<String>,
+    /// defaults are written `fallback_with(|| Ok(v))` instead of `fallback(v)`: the same parser
+    #[serde(default)]
+    pub fallback_with: bool,
+}
+
+fn opts_of(u: &Unit) -> Opts {
+    let mut o = u.level.to_opts();
+    if u.fallback_with {
+        fn swap(p: &mut P) {
+            if let P::Fallback(x, v, _) = p {
+                let inner = (**x).clone();
+                *p = P::FallbackWith(inner.bx(), Ok(v.clone()));
+            }
+            match p {
+                P::Cmd { inner, .. } => swap(&mut inner.p),
+                P::Seq(v) | P::Alt(v) | P::Choice(v) | P::Adj(v) => v.iter_mut().for_each(swap),
+                P::Optional(x, _) | P::Many(x, _) | P::Some_(x, _) | P::Hide(x) | P::FallbackWith(x, _) | P::Guard(x, _) => swap(x),
+                _ => {}
+            }
+        }
+        swap(&mut o.p);
+    }
+    o
 }
 
 const VA: &str = "BPAFMC_A";
@@ -136,7 +159,7 @@ fn check_help(u: &Unit, unit: &Value, p: &bpaf::OptionParser<Val>, env: &Env, ct
 }
 
 fn run_states(u: &Unit, unit: &Value, ctx: &mut Ctx, only: Option<(&Env, &[Tok], bool)>) {
-    let p = match build_checked(&u.level.to_opts()) {
+    let p = match build_checked(&opts_of(u)) {
         Ok(p) => p,
         Err(_) => return,
     };
@@ -167,9 +190,15 @@ fn run_states(u: &Unit, unit: &Value, ctx: &mut Ctx, only: Option<(&Env, &[Tok],
         }
         return;
     }
-    for c in combos {
+    for c in combos.iter() {
         let st: Vec<Option<Tok>> = c.iter().map(|i| sts[*i].clone()).collect();
         let env = set_env(&u.vars, &st);
+        // a fresh parser value per environment state: what an earlier run of the same value
+        // leaves behind is the business of the history clause below, with a replayable history
+        let p = match build_checked(&opts_of(u)) {
+            Ok(p) => p,
+            Err(_) => return,
+        };
         ctx.count("environment-states");
         check_help(u, unit, &p, &env, ctx);
         tree(&alpha, u.len, &mut |argv| {
@@ -189,8 +218,45 @@ fn run_states(u: &Unit, unit: &Value, ctx: &mut Ctx, only: Option<(&Env, &[Tok],
             true
         });
     }
+    // history: the same parser value run under one state and then under another answers the
+    // second run like a fresh value does (nothing read from the environment is remembered)
+    let short: Vec<Vec<Tok>> = std::iter::once(vec![]).chain(alpha.iter().map(|t| vec![t.clone()])).collect();
+    for c1 in combos.iter() {
+        for c2 in combos.iter() {
+            if c1 == c2 || (u.vars.len() > 1 && (c1[1] != 0 || c2[1] != 0)) {
+                continue;
+            }
+            let st1: Vec<Option<Tok>> = c1.iter().map(|i| sts[*i].clone()).collect();
+            let st2: Vec<Option<Tok>> = c2.iter().map(|i| sts[*i].clone()).collect();
+            for argv in &short {
+                history_case(u, unit, &st1, &st2, argv, ctx);
+            }
+        }
+    }
     for v in &u.vars {
         std::env::remove_var(v);
+    }
+}
+
+fn history_case(u: &Unit, unit: &Value, st1: &[Option<Tok>], st2: &[Option<Tok>], argv: &[Tok], ctx: &mut Ctx) {
+    let (p, fresh) = match (build_checked(&opts_of(u)), build_checked(&opts_of(u))) {
+        (Ok(a), Ok(b)) => (a, b),
+        _ => return,
+    };
+    let env1 = set_env(&u.vars, st1);
+    ctx.begin_case(|| json!({"argv": argv, "history": [st1, st2]}));
+    ctx.s.evaluations += 1;
+    let _ = run(&p, argv);
+    let env2 = set_env(&u.vars, st2);
+    let second = run(&p, argv);
+    let want = run(&fresh, argv);
+    if second == want {
+        ctx.s.nontrivial += 1;
+        ctx.count("second-runs-of-one-parser-value-compared");
+    } else {
+        let mut sig = BTreeMap::new();
+        sig.insert("clause".to_string(), "environment-is-read-at-every-run".to_string());
+        ctx.violation(Violation { property: "C18".into(), rule: "environment-is-read-at-every-run".into(), sig, unit: unit.clone(), case: json!({"argv": argv, "history": [st1, st2]}), expected: format!("after a run under {:?}, a run under {:?} gives what a fresh parser value gives: {}", env1, env2, want.brief()), observed: second.brief(), size: argv.len() * 1000 + 1 });
     }
 }
 
@@ -271,11 +337,8 @@ fn adjjob_model(argv: &[Tok], var: Option<&str>) -> Option<Result<Val, ()>> {
 }
 
 fn run_adjjob(len: usize, unit: &Value, only: Option<(&Env, &[Tok])>, ctx: &mut Ctx) {
-    let p = match build_checked(&adjjob_opts()) {
-        Ok(p) => p,
-        Err(_) => return,
-    };
-    let mut one = |argv: &[Tok], var: Option<&str>, ctx: &mut Ctx| {
+    // (a fresh parser value per environment state, see the history clause)
+    let mut one = |p: &bpaf::OptionParser<Val>, argv: &[Tok], var: Option<&str>, ctx: &mut Ctx| {
         let mut env = Env::new();
         match var {
             Some(v) => {
@@ -294,7 +357,7 @@ fn run_adjjob(len: usize, unit: &Value, only: Option<(&Env, &[Tok])>, ctx: &mut 
                 return;
             }
         };
-        let r = run(&p, argv);
+        let r = run(p, argv);
         let ok = match (&m, &r) {
             (Ok(a), Outcome::Value(b)) => a == b,
             (Err(()), Outcome::Stderr(t)) => !t.trim().is_empty(),
@@ -314,14 +377,20 @@ fn run_adjjob(len: usize, unit: &Value, only: Option<(&Env, &[Tok])>, ctx: &mut 
     };
     if let Some((env, argv)) = only {
         let var = env.get(VA).map(|t| t.lossy());
-        one(argv, var.as_deref(), ctx);
+        if let Ok(p) = build_checked(&adjjob_opts()) {
+            one(&p, argv, var.as_deref(), ctx);
+        }
         std::env::remove_var(VA);
         return;
     }
     let alpha = toks(&["job", "--level", "3", "--level=4", "-s"]);
     for var in [None, Some("9"), Some("x")] {
+        let p = match build_checked(&adjjob_opts()) {
+            Ok(p) => p,
+            Err(_) => return,
+        };
         tree(&alpha, len, &mut |argv| {
-            one(argv, var, ctx);
+            one(&p, argv, var, ctx);
             true
         });
     }
@@ -339,20 +408,26 @@ impl Check for C18 {
         let mut out = vec![];
         let neutral = Named { names: Names::both('s', "sw"), kind: Kind::Switch, hidden: false, ty: Ty::Os, adjacent: false, guarded: false };
         for (it, vars) in items(seed) {
-            out.push(Unit { level: Level { named: vec![it.clone()], tail: Tail::None, version: None, usage_fallback: false }, len: tier.pick(4, 5), vars: vars.clone() });
-            out.push(Unit { level: Level { named: vec![neutral.clone(), it.clone()], tail: Tail::Pos(vec![PosItem { kind: PosKind::Opt, strict: Strict::Any }]), version: None, usage_fallback: false }, len: tier.pick(3, 4), vars: vars.clone() });
+            out.push(Unit { level: Level { named: vec![it.clone()], tail: Tail::None, version: None, usage_fallback: false }, len: tier.pick(4, 5), vars: vars.clone(), fallback_with: false });
+            out.push(Unit { level: Level { named: vec![neutral.clone(), it.clone()], tail: Tail::Pos(vec![PosItem { kind: PosKind::Opt, strict: Strict::Any }]), version: None, usage_fallback: false }, len: tier.pick(3, 4), vars: vars.clone(), fallback_with: false });
+        }
+        // defaults written with fallback_with
+        for (it, vars) in items(seed) {
+            if it.kind == Kind::ArgFallback {
+                out.push(Unit { level: Level { named: vec![it.clone()], tail: Tail::None, version: None, usage_fallback: false }, len: tier.pick(3, 4), vars: vars.clone(), fallback_with: true });
+            }
         }
         // fallback_to_usage: a level whose items all come from the environment succeeds on an
         // empty line; the usage is printed only when the empty line fails
         for (it, vars) in items(seed).into_iter().step_by(2) {
-            out.push(Unit { level: Level { named: vec![it.clone()], tail: Tail::None, version: None, usage_fallback: true }, len: tier.pick(2, 3), vars: vars.clone() });
+            out.push(Unit { level: Level { named: vec![it.clone()], tail: Tail::None, version: None, usage_fallback: true }, len: tier.pick(2, 3), vars: vars.clone(), fallback_with: false });
         }
         // two env-backed items sharing nothing
         for k1 in [Kind::Switch, Kind::ArgReq, Kind::ArgMany] {
             for k2 in [Kind::ReqFlag, Kind::ArgOpt, Kind::ArgFallback] {
                 let a = Named { names: Names::both('a', "alpha").env(VA), kind: k1, hidden: false, ty: Ty::Os, adjacent: false, guarded: false };
                 let b = Named { names: Names::both('b', "beta").env(VB), kind: k2, hidden: false, ty: Ty::U32, adjacent: false, guarded: false };
-                out.push(Unit { level: Level { named: vec![a, b], tail: Tail::None, version: None, usage_fallback: false }, len: tier.pick(3, 4), vars: vec![VA.to_string(), VB.to_string()] });
+                out.push(Unit { level: Level { named: vec![a, b], tail: Tail::None, version: None, usage_fallback: false }, len: tier.pick(3, 4), vars: vec![VA.to_string(), VB.to_string()], fallback_with: false });
             }
         }
         let mut out: Vec<Value> = out.into_iter().map(|u| serde_json::to_value(u).unwrap()).collect();
@@ -376,6 +451,18 @@ impl Check for C18 {
             return;
         }
         let u: Unit = serde_json::from_value(unit.clone()).unwrap();
+        if let Ok(h) = serde_json::from_value::<Vec<Vec<Option<Tok>>>>(case["history"].clone()) {
+            if h.len() == 2 {
+                for l in LOOKALIKES {
+                    std::env::remove_var(l);
+                }
+                history_case(&u, unit, &h[0], &h[1], &argv, ctx);
+                for v in &u.vars {
+                    std::env::remove_var(v);
+                }
+                return;
+            }
+        }
         run_states(&u, unit, ctx, Some((&env, &argv, case["help"].as_bool() == Some(true))));
     }
     fn rule(&self) -> String {
